@@ -121,7 +121,7 @@ FSQRT = z3.Function("FSQRT", z3.IntSort(), z3.IntSort())
 
 
 class Limits:
-    def __init__(self, max_paths=512, max_steps=20000, max_depth=12, solver_ms=5000,
+    def __init__(self, max_paths=512, max_steps=400000, max_depth=16, solver_ms=5000,
                  max_jump_targets=64, explore_s=60):
         self.max_paths, self.max_steps, self.max_depth = max_paths, max_steps, max_depth
         self.solver_ms, self.max_jump_targets = solver_ms, max_jump_targets
